@@ -39,7 +39,8 @@ ASSUMPTIONS = ['data, links and selections do not change after set-up (the state
 PROBES = ['cache_hit_same_request', 'cache_after_other_bounds', 'cache_after_other_attribute', 'cache_after_other_dataset', 'scalar_bound_changed',
           'wholly_outside', 'partly_outside', 'halfway_sample', 'mask_request', 'broadcast_dimension', 'permuted_axes', 'negative_scale',
           'unlinked_axis_incompatible', 'same_dataset_request', 'image_plane_read', 'image_slice_changed',
-          'reference_with_sheared_world_coordinates', 'linked_through_world_axis', 'temporary_selection_requested']
+          'reference_with_sheared_world_coordinates', 'linked_through_world_axis', 'temporary_selection_requested',
+          'link_undefined_for_some_positions', 'dask_backed_source']
 
 WEIGHTS = {'req': 10, 'repeat': 3}
 
@@ -63,8 +64,10 @@ def generate(rng, cfg, guards):
             if rng.chance(0.07):
                 maps.append(None)
             else:
-                maps.append([rng.randrange(len(rshape)), rng.pick([1, 1, 1, 2, -1]), rng.randrange(-2, 4), world and rng.chance(0.7)])
-        ops.append(['src', list(sshape), rng.randrange(10000), maps])
+                maps.append([rng.randrange(len(rshape)), rng.pick([1, 1, 1, 2, -1]), rng.randrange(-2, 4), world and rng.chance(0.7),
+                             # a transform that is undefined (NaN) left of some reference position, like sqrt / log scalings
+                             rng.pick([None, None, None, None, 1, 2])])
+        ops.append(['src', list(sshape), rng.randrange(10000), maps, rng.chance(0.2)])      # last: stored as a dask array
     for _ in range(rng.randrange(1, 4)):
         ops.append(['state', rng.pick(['ineq', 'ineq', 'pix', 'mask', 'slice', 'and']), rng.randrange(8), rng.randrange(-2, 9) + 0.5, rng.randrange(1000)])
     if rng.chance(0.35):
@@ -116,6 +119,13 @@ def used_axes(ms):
 def affine(a, b):
     def f(x):
         return a * x + b
+    return f
+
+
+def affine_nan(a, b, cut):
+    def f(x):
+        x = np.asarray(x, dtype=float)
+        return np.where(x < cut, np.nan, a * x + b)
     return f
 
 
@@ -180,7 +190,13 @@ def execute(case, res):
                 continue
             ref = datasets[0]
             d = Data(label='src%d' % len(datasets))
-            d.add_component(W.values(op[2], tuple(op[1]), special=True), 'a')
+            if len(op) > 4 and op[4]:
+                import dask.array as da
+                from glue.core.component import DaskComponent
+                d.add_component(DaskComponent(da.from_array(W.values(op[2], tuple(op[1]), special=True), chunks=2)), 'a')
+                res.probe('dask_backed_source')
+            else:
+                d.add_component(W.values(op[2], tuple(op[1]), special=True), 'a')
             d.add_component(W.values(op[2] + 1, tuple(op[1]), 'intdtype'), 'b')
             datasets.append(d)
             dc.append(d)
@@ -197,7 +213,12 @@ def execute(case, res):
                     res.probe('linked_through_world_axis')
                 else:
                     ms.append((tuple(a * np.eye(ref.ndim)[rax]), b))
-                    dc.add_link(ComponentLink([ref.pixel_component_ids[rax]], d.pixel_component_ids[j], using=affine(a, b), inverse=affine_inv(a, b)))
+                    cut = m[4] if len(m) > 4 else None
+                    if cut is not None:
+                        maps.setdefault(('nan', id(d)), {})[j] = (rax, cut)
+                        res.probe('link_undefined_for_some_positions')
+                    dc.add_link(ComponentLink([ref.pixel_component_ids[rax]], d.pixel_component_ids[j],
+                                              using=affine(a, b) if cut is None else affine_nan(a, b, cut), inverse=affine_inv(a, b)))
                 if rax != j:
                     res.probe('permuted_axes')
                 if a < 0:
@@ -469,7 +490,11 @@ def model(src, ref, maps, bounds, full, invalid_value, res):
     for idx in np.ndindex(*shape):
         p = [axes[i][idx[i]] for i in range(len(axes))]
         options = []
+        nan = maps.get(('nan', id(src)), {}) if src is not ref else {}
         for j, (coeffs, const) in enumerate(ms):
+            if j in nan and p[nan[j][0]] < nan[j][1]:
+                options.append([-10 ** 6])        # the linked position is undefined: outside
+                continue
             x = float(sum(c * p[i] for i, c in enumerate(coeffs) if c != 0) + const)
             fl = np.floor(x)
             if x - fl == 0.5:
